@@ -58,6 +58,8 @@ def main(argv):
         lines = rp.get("cases", [])
         impl = vf.run_impl(lines, shards=1)
         model = vf.run_model(lines)
+        if hasattr(prop, "post"):
+            impl, model = prop.post(lines, impl, model)
         bad = 0
         for l, i, m in zip(lines, impl, model):
             v = prop.judge(l, i, m)
@@ -79,6 +81,8 @@ def main(argv):
     lines = corpus + gen
     impl = vf.run_impl(lines)
     model = vf.run_model(lines)
+    if hasattr(prop, "post"):
+        impl, model = prop.post(lines, impl, model)
     known = vf.load_known()
     violations = []      # (line, impl, model, verdict)
     known_hits = {}
@@ -112,6 +116,11 @@ def main(argv):
     for tag, (k, l, i, m) in sorted(known_hits.items()):
         print("KNOWN-FINDING: property=%s %s" % (pid, k["what"]))
 
+    if os.environ.get("VERIF_DEBUG") and violations:
+        import collections, re as _re
+        cnt = collections.Counter(_re.sub(r"\d+", "N", v[3])[:110] for v in violations)
+        for k, n in cnt.most_common(12):
+            vf.log("  %5d  %s" % (n, k))
     rc = 0
     replay_path = None
     if violations or extra_viol:
